@@ -497,14 +497,14 @@ def trace (ws : List String) : String :=
     | _, _ => "bad-op"
   | _ => "bad-op"
 
-/-- `runu <p|a> <logger 0|1> <target> <maxCycles> <cbs a,b,..|-> <19 register fields> <seed> <ovl>`:
+/-- `runu <p|a> <logger 0|1> <target> <maxCycles> <cbs a,b,..|-> <interrupt latch> <19 register fields> <seed> <ovl>`:
 outcome of `System.RunUntil` with the observer logs -/
 def runUntil (ws : List String) : String :=
   match ws with
-  | v :: lg :: tgt :: mx :: cbs :: rest =>
+  | v :: lg :: tgt :: mx :: cbs :: lt :: rest =>
     if rest.length != 21 then "bad-op" else
-    match parseRegs (rest.take 19), hexNat? (rest.getD 19 ""), hexNat? tgt, hexNat? mx with
-    | some r, some seed, some tgt, some mx =>
+    match parseRegs (rest.take 19), hexNat? (rest.getD 19 ""), hexNat? tgt, hexNat? mx, hexNat? lt with
+    | some r, some seed, some tgt, some mx, some lt =>
       let ovl := parseOvl (rest.getD 20 "-")
       let base : Nat → U8 := fun a => match ovl.find? (·.1 == a) with
         | some (_, x) => BitVec.ofNat 8 x
@@ -515,11 +515,11 @@ def runUntil (ws : List String) : String :=
         s!"{tag} {b01 b} {canon r.s.r} {toHex r.cycles} {toHex r.logs} " ++
         "[" ++ ",".intercalate (r.onpc.reverse.map toHex) ++ "] [" ++ ",".intercalate (r.wdm.reverse.map (fun x => toHex x.toNat)) ++ "]|" ++
         writesStr r.s.m
-      match Sys.runUntil variant (lg == "1") cbl tgt mx ⟨r, ⟨base, []⟩⟩ with
+      match Sys.runUntilL variant (lg == "1") cbl tgt mx lt ⟨r, ⟨base, []⟩⟩ with
       | .done r b => show_ "done" b r
       | .crash r => show_ "crash" false r
       | .outOfFuel r => show_ "fuel" false r
-    | _, _, _, _ => "bad-op"
+    | _, _, _, _, _ => "bad-op"
   | _ => "bad-op"
 end CpuDrv
 
